@@ -10,6 +10,7 @@ import (
 	pscrape "github.com/prometheus/prometheus/scrape"
 
 	"kvassverif/core"
+	"kvassverif/sched"
 	"kvassverif/sidecarsim"
 
 	"tkestack.io/kvass/pkg/discovery"
@@ -284,7 +285,7 @@ func c20Bubble(tp *core.Tape, e *core.Env) (hist []string) {
 		}
 		if outcome == "timeout" {
 			// let the scrape deadline pass on the fake clock; the transport returns the context error
-			time.Sleep(11 * time.Second)
+			sched.Sleep(11 * time.Second)
 			w.Settle()
 			e.Fault("probe_timeout")
 		} else {
@@ -299,7 +300,7 @@ func c20Bubble(tp *core.Tape, e *core.Env) (hist []string) {
 		}
 		// keep timer deadlines pairwise distinct: two retry sleeps that start in the
 		// same fake instant would wake in an order the Go runtime picks
-		time.Sleep(time.Millisecond)
+		sched.Sleep(time.Millisecond)
 		w.Settle()
 		if outcome == "" && cur {
 			t.success = true
@@ -316,6 +317,9 @@ func c20Bubble(tp *core.Tape, e *core.Env) (hist []string) {
 	}
 	steps := tp.Range("steps", 10, 60)
 	for s := 0; s < steps && !e.Failed(); s++ {
+		// every action happens at its own fake instant: timers that kvass arms during
+		// two different actions (scrape deadlines, retry sleeps) can then never coincide
+		sched.Sleep(0)
 		w.Settle()
 		check()
 		pend := w.Net.Pending()
@@ -333,7 +337,7 @@ func c20Bubble(tp *core.Tape, e *core.Env) (hist []string) {
 			}
 		case 2: // time passes
 			d := time.Duration(1+tp.Choose("advance_s", 7)) * time.Second
-			time.Sleep(d)
+			sched.Sleep(d)
 			logf("advance %s", d)
 		case 3: // discovery changes: a target leaves or comes back
 			t := ts[tp.Choose("sd_target", len(ts))]
@@ -368,7 +372,7 @@ func c20Bubble(tp *core.Tape, e *core.Env) (hist []string) {
 			releaseProbe(p[0])
 			continue
 		}
-		time.Sleep(time.Second)
+		sched.Sleep(time.Second)
 	}
 	w.Settle()
 	check()
